@@ -1,4 +1,324 @@
-(* Props/C17.v — placeholder, filled in below *)
-Require Import Hdl21.Base.PyInt Hdl21.Spec.SimSpec Hdl21.Model.SimExport.
-Example C17_ex_placeholder : one_scalar_port [1] = true.
-Proof. reflexivity. Qed.
+(* Props/C17.v — Simulation input export is complete and faithful.
+   Statements only, each closed by a lemma of Proofs/C17Proofs.v, followed by Print Assumptions.
+
+   Model (Model/SimExport.v): `construct` builds a Sim the three documented ways (Sim(...), add / add-methods,
+   @sim class), `export_all` is hdl21.sim.to_proto on a Sim or a list of Sims (module co-export `xmod`, per Sim
+   `export_one` = is_tb check + `xattrs` over sim.attrs with the analysis counter threaded through `xan`).
+   Specification (Spec/SimSpec.v): `rel frel s o` = "o is a complete and faithful export of s", `spec_all` for
+   a whole call, `must_accept_all` = the inputs no exporter may reject.
+
+   Float fields.  The model emits `FDec m e` = "float() of the prefixed value m*10^e".  All theorems are stated
+   for an arbitrary float function `fl` (Section variable; float(Prefixed), whose nearest-double property is
+   C14's subject): `conc fl` replaces every `FDec m e` by the concrete double `fl m e`, and
+   `frel_fl fl m e f` holds exactly when f is that double. *)
+From Coq Require Import String Ascii.
+Require Import Hdl21.Base.PyInt Hdl21.Spec.SimSpec Hdl21.Model.SimExport Hdl21.Proofs.C17Proofs.
+Require Import Hdl21Gen.C17Tables.
+Open Scope list_scope.
+Open Scope Z_scope.
+
+Definition to_option {A} (r : result A) : option A := match r with Ok a => Some a | Error _ => None end.
+
+(* 0. the tables the model and the specification refer to are the ones of the tree under test *)
+Definition kind_class (k : akind) : string :=
+  match k with KOp => "Op" | KDc => "Dc" | KAc => "Ac" | KTran => "Tran" | KNoise => "Noise"
+             | KSweep => "SweepAnalysis" | KMonte => "MonteCarlo" | KCustom => "CustomAnalysis" end%string.
+Definition all_kinds : list akind := [KOp; KDc; KAc; KTran; KNoise; KSweep; KMonte; KCustom].
+Definition mode_name (m : smode) : string := match m with MNone => "NONE" | MAll => "ALL" | MSelected => "SELECTED" end%string.
+Definition all_modes : list smode := [MNone; MAll; MSelected].
+Definition pair_mem (a b : string) (l : list (string * string)) : bool :=
+  existsb (fun x => String.eqb (fst x) a && String.eqb (snd x) b) l.
+Definition tables_ok : bool :=
+  (* the Analysis union has exactly the eight modelled members, each with the modelled AnalysisType value *)
+  strs_eqb (map fst analysis_types) (map kind_class all_kinds) &&
+  strs_eqb (map snd analysis_types) (map kind_name all_kinds) &&
+  (* the Control union has exactly the six modelled members *)
+  strs_eqb control_union ["Include"; "Lib"; "Save"; "Meas"; "Param"; "Literal"]%string &&
+  (* data.SaveMode has exactly the three modelled members; export_save translates a member exactly when the model
+     does, to the vlsir member of the same name; the members it refuses do not exist in vlsir.spice.Save.SaveMode *)
+  strs_eqb (map fst hdl_save_modes) (map mode_name all_modes) &&
+  forallb (fun m => Bool.eqb (is_ok (xsave (TMode m))) (pair_mem (mode_name m) (mode_name m) save_mode_exported)) all_modes &&
+  forallb (fun m => Bool.eqb (is_ok (xsave (TMode m))) (mem_str (mode_name m) vlsir_save_modes)) all_modes &&
+  forallb (fun m => Bool.eqb (ctrl_fin (CSave (TMode m))) (mem_str (mode_name m) vlsir_save_modes)) all_modes &&
+  forallb (fun p => String.eqb (fst p) (snd p)) save_mode_exported &&
+  (* the names a class-style definition may not use *)
+  strs_eqb sim_protected_names protected_names.
+Theorem C17_tables_adequate : tables_ok = true.
+Proof. vm_compute. reflexivity. Qed.
+Print Assumptions C17_tables_adequate.
+
+Section C17.
+(* float(Prefixed) as a function of the decimal value m*10^e *)
+Variable fl : Z -> Z -> dbl.
+
+Theorem C17_float_field_meaning m e f : frel_fl fl m e f = true <-> f = FDbl (fl m e).
+Proof.
+  destruct f as [m' e'|d]; simpl; split; intros H; try discriminate.
+  - apply dbl_same_eq in H. subst. reflexivity.
+  - inversion H; subst. apply dbl_same_eq. reflexivity.
+Qed.
+
+(* 1. partition: the options, analyses and controls of the output are exactly the exports of the attributes of that
+      kind, in their original order (thread / traverse are order-preserving maps), one entry each; the three kinds
+      partition the attribute list.  For every attribute list and every counter value. *)
+Theorem C17_partition_stable l k os ans cs : xattrs l k = Ok (os, ans, cs) ->
+  (exists k', thread xan (ans_of l) k = Ok (ans, k')) /\
+  traverse xctrl (ctrls_of l) = Ok cs /\
+  traverse xopt (opts_of l) = Ok os /\
+  List.length ans = List.length (ans_of l) /\ List.length cs = List.length (ctrls_of l) /\
+  List.length os = List.length (opts_of l) /\
+  (List.length ans + List.length cs + List.length os)%nat = List.length l.
+Proof.
+  intros H. destruct (xattrs_partition _ _ _ _ _ H) as [[k' A] [B C]].
+  pose proof (thread_length _ _ _ _ A) as LA. simpl in LA.
+  pose proof (traverse_ok_length _ _ _ B) as LB. pose proof (traverse_ok_length _ _ _ C) as LC.
+  repeat split; eauto. rewrite LA, LB, LC. apply partition_lengths.
+Qed.
+
+(* ... and an attribute list is exported whenever each of its attributes is *)
+Theorem C17_partition_complete l k ans k' cs os :
+  thread xan (ans_of l) k = Ok (ans, k') -> traverse xctrl (ctrls_of l) = Ok cs -> traverse xopt (opts_of l) = Ok os ->
+  xattrs l k = Ok (os, ans, cs).
+Proof. apply xattrs_complete. Qed.
+
+(* 2. fields: every exported analysis (any variant, any nesting depth), control and option carries the names,
+      expressions, paths, sweep variable and sweep kind of its source; every numeric field is the float image fl of
+      the prefixed value (an_ok / ctrl_ok / opt_ok of Spec/SimSpec.v are the per-variant statements) *)
+Theorem C17_fields_preserved :
+  (forall a k o k', xan a k = Ok (o, k') -> an_ok (frel_fl fl) a (map_oan (conc fl) o) = true) /\
+  (forall c o, xctrl c = Ok o -> ctrl_ok c o = true) /\
+  (forall x o, xopt x = Ok o -> opt_ok x o = true).
+Proof.
+  split; [|split; [exact xctrl_ok|exact xopt_ok]].
+  intros a k o k' H. exact (proj1 (xan_good (frel_fl fl) (conc fl) (frel_fl_conc fl) a k o k' H)).
+Qed.
+
+(* the property's wording: when float() returns the nearest double, every numeric field is the double nearest
+   to the prefixed value *)
+Theorem C17_fields_nearest : (forall m e, nearest_double m e (fl m e) = true) ->
+  forall a k o k', xan a k = Ok (o, k') -> an_ok frel_nearest a (map_oan (conc fl) o) = true.
+Proof.
+  intros HN a k o k' H. refine (proj1 (xan_good frel_nearest (conc fl) _ a k o k' H)). intros m e. apply HN.
+Qed.
+
+(* 3. nesting: a sweep / Monte-Carlo analysis is exported as a sweep / Monte-Carlo analysis whose inner list is the
+      export of its inner list (same length, same order, each inner analysis faithful, recursively), the counter
+      running on from the outer name; the total number of analyses at all depths is preserved *)
+Theorem C17_nested_kept :
+  (forall inner v sw n k o k', xan (ASweep inner v sw n) k = Ok (o, k') ->
+     exists sw' os, o = OSweep (fst (pick_name n k)) (xvar v) sw' os /\ xsweep sw = Ok sw' /\
+                    thread xan inner (snd (pick_name n k)) = Ok (os, k') /\ List.length os = List.length inner /\
+                    forall2b (an_ok (frel_fl fl)) inner (map (map_oan (conc fl)) os) = true) /\
+  (forall inner np n k o k', xan (AMonte inner np n) k = Ok (o, k') ->
+     exists os, o = OMonte (fst (pick_name n k)) np 0 os /\
+                thread xan inner (snd (pick_name n k)) = Ok (os, k') /\ List.length os = List.length inner /\
+                forall2b (an_ok (frel_fl fl)) inner (map (map_oan (conc fl)) os) = true) /\
+  (forall a k o k', xan a k = Ok (o, k') -> oan_count o = an_count a).
+Proof.
+  split; [|split].
+  - intros inner v sw n k o k' H. destruct (xan_sweep_inv _ _ _ _ _ _ _ H) as [sw' [os [A [B [C D]]]]].
+    exists sw', os. repeat split; try assumption.
+    exact (proj1 (xan_list_good (frel_fl fl) (conc fl) (frel_fl_conc fl) inner _ _ _ C)).
+  - intros inner np n k o k' H. destruct (xan_monte_inv _ _ _ _ _ _ H) as [os [A [C D]]].
+    exists os. repeat split; try assumption.
+    exact (proj1 (xan_list_good (frel_fl fl) (conc fl) (frel_fl_conc fl) inner _ _ _ C)).
+  - intros a k o k' H. exact (proj2 (proj2 (xan_good (frel_fl fl) (conc fl) (frel_fl_conc fl) a k o k' H))).
+Qed.
+End C17.
+Print Assumptions C17_float_field_meaning.
+Print Assumptions C17_partition_stable.
+Print Assumptions C17_partition_complete.
+Print Assumptions C17_fields_preserved.
+Print Assumptions C17_fields_nearest.
+Print Assumptions C17_nested_kept.
+
+(* 4. automatic names.  The name of the n-th unnamed analysis is "Analysis" followed by the decimal rendering of n;
+      that function is injective; the names given to the unnamed analyses of an attribute list, at all nesting
+      depths, outer before inner, are exactly auto_name k, auto_name (k+1), ... — hence pairwise distinct, for any
+      number of unnamed analyses at any nesting. *)
+Theorem C17_auto_name_injective a b : auto_name a = auto_name b -> a = b.
+Proof. exact (auto_name_inj a b). Qed.
+Print Assumptions C17_auto_name_injective.
+
+Theorem C17_auto_names_distinct l k os ans cs : xattrs l k = Ok (os, ans, cs) ->
+  (exists n, map2cat invented (ans_of l) ans = map auto_name (nseq k n)) /\
+  NoDup (map2cat invented (ans_of l) ans) /\
+  nodupb (map2cat invented (ans_of l) ans) = true.
+Proof.
+  intros H. destruct (xattrs_rel frel_nearest (fun f => f) frel_nearest_id _ _ _ _ _ H) as [_ [_ [_ [n Hn]]]].
+  rewrite map_oan_id_list in Hn. split; [exists n; exact Hn|].
+  rewrite Hn. split; [apply auto_names_nodup|apply nodupb_NoDup, auto_names_nodup].
+Qed.
+Print Assumptions C17_auto_names_distinct.
+
+(* a single analysis, at any depth of nesting: the counter only grows, by the number of names invented *)
+Theorem C17_auto_names_counter a k o k' : xan a k = Ok (o, k') ->
+  exists n, k' = (k + N.of_nat n)%N /\ invented a o = map auto_name (nseq k n).
+Proof.
+  intros H. destruct (xan_good frel_nearest (fun f => f) frel_nearest_id a k o k' H) as [_ [[n [A B]] _]].
+  rewrite map_oan_id in B. exists n. split; assumption.
+Qed.
+Print Assumptions C17_auto_names_counter.
+
+(* 5. every form of save target is accepted and translated faithfully — modes NONE and ALL, a signal, a list of
+      signals, a name, a list of names (any length).  SaveMode.SELECTED, which vlsir.spice.Save.SaveMode cannot
+      express (C17_tables_adequate), is the one value refused. *)
+Theorem C17_save_total t : t <> TMode MSelected -> exists o, xsave t = Ok o /\ starg_ok t o = true.
+Proof. intros H. destruct (xsave_total t H) as [o Ho]. exists o. split; [exact Ho|apply xsave_ok; exact Ho]. Qed.
+Print Assumptions C17_save_total.
+
+(* 6. a testbench that does not have exactly one scalar port is rejected: by the exporter for every Sim of the call,
+      however it was built, and already by the @sim decorator for the ports declared on the class's testbench *)
+Theorem C17_tb_checked :
+  (forall l s, In s l -> one_scalar_port (tb_ports (s_tb s)) = false -> exists e, export_all l = Error e) /\
+  (forall es s, construct (BClass es) = Ok s -> one_scalar_port (tb_pre_ports (s_tb s)) = true).
+Proof. split; [exact export_all_rejects|]. intros es s H. exact (proj2 (construct_class es s H)). Qed.
+Print Assumptions C17_tb_checked.
+
+(* 7. one package for the whole call, without duplicate module names, made of modules of the testbench hierarchies;
+      every SimInput's `top` is the name of its Sim's testbench, present exactly once in that package and carried by
+      the testbench module itself — also when several Sims share a testbench *)
+Theorem C17_tb_once l outs : ids_functional (universe l) = true -> export_all l = Ok outs ->
+  exists pkg, NoDup (pkg_names pkg) /\ incl pkg (universe l) /\
+    Forall2 (fun s o => o_pkg o = pkg /\ o_top o = mod_name (tb_mod (s_tb s)) /\
+                        count_str (o_top o) (pkg_names pkg) = 1 /\ In (mod_id (tb_mod (s_tb s)), o_top o) pkg) l outs.
+Proof. exact (export_all_pkg l outs). Qed.
+Print Assumptions C17_tb_once.
+
+(* 8. the three ways of building a Sim give the same attribute list: add-calls concatenate their groups; a class body
+      contributes its SimAttr-valued entries in definition order, labelled by their keys (`_` unlabelled; Save,
+      Literal, Include, Lib and Options keep what they have) *)
+Theorem C17_build_styles :
+  (forall t groups, construct (BAdd t groups) = construct (BProc t (concat groups))) /\
+  (forall es s, construct (BClass es) = Ok s -> s_attrs s = flat_map class_attr es) /\
+  (forall key x, set_name key (AtAn x) = AtAn (set_an_name key x) /\ an_name (set_an_name key x) = Some key) /\
+  (forall key n v, set_name key (AtOpt n v) = AtOpt n v) /\
+  (forall key t, set_name key (AtCtrl (CSave t)) = AtCtrl (CSave t)) /\
+  (forall key s, set_name key (AtCtrl (CLiteral s)) = AtCtrl (CLiteral s)).
+Proof.
+  split; [reflexivity|]. split; [intros es s H; exact (proj1 (construct_class es s H))|].
+  split; [intros key x; split; [reflexivity|destruct x; reflexivity]|]. repeat split.
+Qed.
+Print Assumptions C17_build_styles.
+
+(* 9. the whole property on one call: whatever to_proto does on a Sim or list of Sims satisfies the specification —
+      an accepted call returns, per Sim, a complete and faithful SimInput (testbench once, three lists, fields, nested
+      analyses, distinct invented names), and a call is rejected only if the specification allows it (a testbench
+      without exactly one scalar port, a value the schema cannot carry, or clashing module names).
+      hier_wf: identities determine names and no module instantiates itself. *)
+Theorem C17_export_meets_spec (frel : Z -> Z -> fnum -> bool) (g : fnum -> fnum) l :
+  (forall m e, frel m e (g (FDec m e)) = true) -> hier_wf l = true ->
+  spec_all frel l (option_map (map (map_si g)) (to_option (export_all l))) = true.
+Proof.
+  intros Hg HW. unfold hier_wf in HW. apply andb_true_iff in HW. destruct HW as [HF HA].
+  destruct (export_all l) as [outs|e] eqn:E; simpl.
+  - destruct (export_all_rel frel g Hg l outs HF E) as [A B]. rewrite A, B. reflexivity.
+  - destruct (must_accept_all l) eqn:EM; [|reflexivity].
+    destruct (export_all_accepts l EM HA) as [outs Ho]. congruence.
+Qed.
+Print Assumptions C17_export_meets_spec.
+
+Theorem C17_export_float (fl : Z -> Z -> dbl) l : hier_wf l = true ->
+  spec_all (frel_fl fl) l (option_map (map (map_si (conc fl))) (to_option (export_all l))) = true.
+Proof. apply C17_export_meets_spec. apply frel_fl_conc. Qed.
+Print Assumptions C17_export_float.
+
+Theorem C17_export_nearest (fl : Z -> Z -> dbl) l : (forall m e, nearest_double m e (fl m e) = true) -> hier_wf l = true ->
+  spec_all frel_nearest l (option_map (map (map_si (conc fl))) (to_option (export_all l))) = true.
+Proof. intros HN. apply C17_export_meets_spec. intros m e. apply HN. Qed.
+Print Assumptions C17_export_nearest.
+
+(* every input the specification says must be accepted is accepted *)
+Theorem C17_accepts l : must_accept_all l = true -> forallb (fun s => acyclic (tb_mod (s_tb s))) l = true ->
+  exists outs, export_all l = Ok outs.
+Proof. exact (export_all_accepts l). Qed.
+Print Assumptions C17_accepts.
+
+(* ------------------------------------------------------------------------------------------ *)
+(* non-vacuity: concrete, non-trivial instances                                                *)
+(* ------------------------------------------------------------------------------------------ *)
+Open Scope string_scope.
+Definition ex_tb (i : N) (nm : string) : tbdesc :=
+  {| tb_mod := HMod i nm [HMod 100 "Leaf" []]; tb_pre_ports := [1]; tb_ports := [1] |}.
+Definition ex_attrs : list attr :=
+  [ AtAn (ATran (NPre 1 0 (-9)) None None);
+    AtCtrl (CSave (TSigs ["a"; "b"]));
+    AtOpt "reltol" (VNum (NPre 1 (-3) 0));
+    AtAn (ASweep [AAc (NPre 1 0 0) (NPre 1 0 9) 10 None;
+                  AMonte [AOp None; ADc (VStr "x") (SwPts [NPre 5 (-1) 0]) (Some "mydc")] 11 None]
+                 (VPar (Some "p")) (SwLin (NPre 0 0 0) (NPre 1 0 0) (NPre 1 (-1) 0)) (Some "sw"));
+    AtCtrl (CSave (TNames []));
+    AtAn (AOp None);
+    AtCtrl (CMeas (MAn KTran) "v(out)" (Some "m1")) ].
+Definition ex_sims : list sim :=
+  [ {| s_tb := ex_tb 0 "Tb"; s_attrs := ex_attrs |};
+    {| s_tb := ex_tb 0 "Tb"; s_attrs := [AtAn (AOp None)] |};
+    {| s_tb := ex_tb 1 "Tb2"; s_attrs := [] |} ].
+
+(* the hypotheses of 7, 9 hold for a list of Sims sharing a testbench and a leaf module; the call is accepted *)
+Example C17_ex_hyps : hier_wf ex_sims = true /\ must_accept_all ex_sims = true /\ is_ok (export_all ex_sims) = true.
+Proof. vm_compute. repeat split. Qed.
+
+(* the shared testbench and the shared leaf are in the package once; tops name the testbenches *)
+Example C17_ex_pkg :
+  option_map (map (fun o => (o_top o, o_pkg o))) (to_option (export_all ex_sims)) =
+  Some [("Tb", [(100%N, "Leaf"); (0%N, "Tb"); (1%N, "Tb2")]); ("Tb", [(100%N, "Leaf"); (0%N, "Tb"); (1%N, "Tb2")]);
+        ("Tb2", [(100%N, "Leaf"); (0%N, "Tb"); (1%N, "Tb2")])].
+Proof. vm_compute. reflexivity. Qed.
+
+(* five unnamed analyses over three nesting levels get Analysis0..Analysis4 (outer before inner), user names stay *)
+Example C17_ex_names :
+  match xattrs ex_attrs 0 with
+  | Ok (_, ans, _) => map2cat invented (ans_of ex_attrs) ans = ["Analysis0"; "Analysis1"; "Analysis2"; "Analysis3"; "Analysis4"] /\
+                      map oan_name ans = ["Analysis0"; "sw"; "Analysis4"]
+  | Error _ => False
+  end.
+Proof. vm_compute. split; reflexivity. Qed.
+
+(* decimal rendering of the counter: the tenth and hundredth unnamed analyses *)
+Example C17_ex_render : auto_name 10 = "Analysis10" /\ auto_name 109 = "Analysis109" /\ auto_name 0 = "Analysis0".
+Proof. vm_compute. repeat split. Qed.
+
+(* the specification is not trivially true: a dropped control, swapped sweep bounds, a wrong float, a repeated
+   invented name, a top that is in the package twice are all refused *)
+Definition ex_fl (m e : Z) : dbl := DFin false m e.       (* any function will do for the float-image theorems *)
+Definition ex_one : sim := {| s_tb := ex_tb 0 "Tb"; s_attrs := [AtAn (AAc (NPre 1 0 0) (NPre 1 0 9) 10 None); AtCtrl (CInclude "a.sp"); AtAn (AOp None)] |}.
+Definition ex_out (a b : fnum) (n2 : string) (cs : list octrl) (pkg : list (N * string)) : siminput :=
+  {| o_top := "Tb"; o_pkg := pkg; o_opts := []; o_an := [OAc "Analysis0" a b 10; OOp n2]; o_ctrls := cs |}.
+Definition ex_pkg : list (N * string) := [(100%N, "Leaf"); (0%N, "Tb")].
+Example C17_ex_spec_discriminates :
+  let f := frel_fl ex_fl in
+  rel f ex_one (ex_out (FDbl (ex_fl 1 0)) (FDbl (ex_fl 1 9)) "Analysis1" [XInclude "a.sp"] ex_pkg) = true /\
+  rel f ex_one (ex_out (FDbl (ex_fl 1 0)) (FDbl (ex_fl 1 9)) "Analysis1" [] ex_pkg) = false /\
+  rel f ex_one (ex_out (FDbl (ex_fl 1 9)) (FDbl (ex_fl 1 0)) "Analysis1" [XInclude "a.sp"] ex_pkg) = false /\
+  rel f ex_one (ex_out (FDbl (ex_fl 1 0)) (FDbl (ex_fl 10 8)) "Analysis1" [XInclude "a.sp"] ex_pkg) = false /\
+  rel f ex_one (ex_out (FDbl (ex_fl 1 0)) (FDbl (ex_fl 1 9)) "Analysis0" [XInclude "a.sp"] ex_pkg) = false /\
+  rel f ex_one (ex_out (FDbl (ex_fl 1 0)) (FDbl (ex_fl 1 9)) "Analysis1" [XInclude "a.sp"] ((7%N, "Tb") :: ex_pkg)) = false /\
+  rel f ex_one (ex_out (FDbl (ex_fl 1 0)) (FDbl (ex_fl 1 9)) "Analysis1" [XInclude "a.sp"] [(100%N, "Leaf")]) = false.
+Proof. vm_compute. repeat split. Qed.
+
+(* every save-target form, incl. the two list forms that the pinned tree refused *)
+Example C17_ex_save :
+  map xsave [TMode MAll; TMode MNone; TSig "out"; TSigs ["a"; "b"]; TName "n1"; TNames ["x"; "y"; "z"]; TNames []] =
+  [Ok (XSaveMode MAll); Ok (XSaveMode MNone); Ok (XSaveSig "out"); Ok (XSaveSig "a,b"); Ok (XSaveSig "n1");
+   Ok (XSaveSig "x,y,z"); Ok (XSaveSig "")].
+Proof. vm_compute. reflexivity. Qed.
+
+(* rejected testbenches: no port, two ports, one port of width 2; a parent and child module with one name *)
+Example C17_ex_rejected :
+  let bad p := [{| s_tb := {| tb_mod := HMod 0 "Tb" []; tb_pre_ports := p; tb_ports := p |}; s_attrs := [] |}] in
+  is_ok (export_all (bad [])) = false /\ is_ok (export_all (bad [1; 1])) = false /\ is_ok (export_all (bad [2])) = false /\
+  is_ok (export_all (bad [1])) = true /\
+  is_ok (export_all [{| s_tb := {| tb_mod := HMod 0 "E" [HMod 1 "E" []]; tb_pre_ports := [1]; tb_ports := [1] |}; s_attrs := [] |}]) = false /\
+  is_ok (construct (BClass [("tb", CeTb {| tb_mod := HMod 0 "Tb" []; tb_pre_ports := [2]; tb_ports := [2] |})])) = false.
+Proof. vm_compute. repeat split. Qed.
+
+(* class-style: keys become names, `_` and Options / Save / Literal keep theirs, non-attributes are forgotten *)
+Example C17_ex_class :
+  option_map s_attrs (to_option (construct (BClass
+    [("tb", CeTb (ex_tb 0 "Tb")); ("mytran", CeAttr (AtAn (ATran (NPre 1 0 (-9)) None None))); ("a_path", CeOther);
+     ("opts", CeAttr (AtOpt "reltol" (VNum (NPre 1 (-9) 0)))); ("_", CeAttr (AtAn (AOp None)));
+     ("sv", CeAttr (AtCtrl (CSave (TMode MAll)))); ("name", CeName "S"); ("lit", CeAttr (AtCtrl (CLiteral ".x")))]))) =
+  Some [AtAn (ATran (NPre 1 0 (-9)) None (Some "mytran")); AtOpt "reltol" (VNum (NPre 1 (-9) 0)); AtAn (AOp None);
+        AtCtrl (CSave (TMode MAll)); AtCtrl (CLiteral ".x")].
+Proof. vm_compute. reflexivity. Qed.
